@@ -4,12 +4,18 @@ package strings
 import (
 	"strings"
 	"unicode"
+	"unicode/utf8"
 )
 
 func ToLowerCamel(s string) string {
+	// walk runes, not bytes: a leading capital may be a multi-byte character (Über, Ωmega)
 	i := 0
-	for i < len(s) && unicode.IsUpper(rune(s[i])) {
-		i++
+	for i < len(s) {
+		r, size := utf8.DecodeRuneInString(s[i:])
+		if !unicode.IsUpper(r) {
+			break
+		}
+		i += size
 	}
 
 	return strings.ToLower(s[:i]) + s[i:]
